@@ -82,6 +82,16 @@ CHECKS = {
             "Each public operation with an error result is run fault-free on a fresh handle to number its storage calls, then once per call index with exactly that call failing (Get, Has, iterator creation/step, batch Set/Delete/Write): it must return an error or exactly the fault-free result, never panic; a write operation with a failed write must not report success, and the store left behind must reopen to the state before or after.",
             "Faults are injected at the corestore interface; a failed batch write applies nothing. Operations without an error result are outside the statement.",
             "DESIGN.md §3 C17"),
+    "C19": ("exploration",
+            "runtime monitoring: differential execution v2 vs v1 vs reference tree vs model on the same per-version write sets, over all 80 option combinations, reads and bounded iterators after every commit (and on uncommitted states)",
+            "Normal-form histories incl. empty versions, identical rewrites and trees shrinking to empty on a v2 tree over on-disk SQLite; after every commit root hash (v2 = v1 = R), Hash, Version, Size, Height, Get/Has of every probe key and forward / inclusive / reverse iterators over the C08 bound set against M. Worker processes absorb os.Exit / panics of the SQLite writer goroutines.",
+            "Trusted: M, R, v1 as second reference. The values returned by v2 Set/Remove are recorded, not judged (not part of the statement). Pool-poisoning hook and ASan build were not built.",
+            "DESIGN.md §3 C19"),
+    "C20": ("exploration",
+            "runtime monitoring: close/reopen differential - every version reloaded by a fresh tree and compared with the recorded hash and the model; continuation compared with the reference; prune + reopen; snapshot round trips (SaveSnapshot/LoadSnapshot, Export -> WriteSnapshot -> LoadSnapshot in both orders)",
+            "For every version t of a generated history LoadVersion(t) on a fresh tree must reproduce hash, size, reads and iteration (targets on / just after / far after a checkpoint); continuing from the reloaded latest must reproduce the reference's hashes; after DeleteVersionsTo(n) has drained (bounded polling of the SQLite files) the latest version and all versions from the last checkpoint not after n must load; snapshots import to the source version's hash and contents.",
+            "Trusted: M, R. Background pruning has no completion signal: not draining within the bound is INCONCLUSIVE. A store written by WriteSnapshot is read back with LoadSnapshot (as the property states), not with LoadVersion.",
+            "DESIGN.md §3 C20"),
     "C04": ("exploration",
             "runtime monitoring: before/after observation vectors (hash, contents, reads, ICS-23 proof verification) around every DeleteVersionsTo, live and after reopen; raw-store comparison for rejected requests; export pin",
             "Around every DeleteVersionsTo(n) in thousands of generated histories (no-op commits, empty versions, single-leaf roots, rollbacks + rewrites, deletions split over several physical batches by small flush thresholds), an observation vector of every later version is recorded before and compared after the call, on the live handle and on a freshly opened one; deleted versions must be unavailable on every API; rejected requests (latest version, version pinned by an open Exporter) must leave the raw store byte-identical.",
